@@ -13,7 +13,7 @@ edit = sm.edit_text     # the statement of C14, acted out on the text
 
 MALFORMED = ["novalue", "a//k=v", "/k=v", "a/=v", "=v", "a/b/", "//=",
              "a/b//c=1"]
-BAD_KEYS = ["zzz", "no-such", "1bad", "a:b", "$$", "_q", "x y"]
+BAD_KEYS = ["zzz", "no-such", "zzz", "nokey", "1bad", "a:b", "$$", "_q", "x y"]
 VALUES_EXTRA = ["a=b", "$x", "x$$y", "${n}", "", "# v", "<v>", "%v"]
 
 
@@ -62,7 +62,7 @@ def _gen_spec(rng, model, root):
     else:
         keys = [cm for cm in tm.children if not cm.isslot()]
         r = rng.random()
-        if keys and r < 0.75:
+        if keys and r < 0.88:
             cm = rng.choice(keys)
             if cm.iswild():
                 key = rng.choice(sm.WILD_KEYS[tm.keytype])
@@ -162,9 +162,12 @@ def _compare(ZConfig, col, view, xml, schema, text, specs, tags):
     only_conv = tags and all(t in ("unconvertible", "repeat") for t in tags)
     if only_conv and isinstance(b[1], ZConfig.DataConversionError) and \
             not isinstance(a[1], ZConfig.DataConversionError):
-        col.violation("C14:unconvertible-override-not-a-conversion-error",
-                      "the only fault is an unconvertible override value",
-                      inp, "DataConversionError", msg_template(a[1]))
+        sig = "C14:unconvertible-override-not-a-conversion-error"
+        if "could not convert basic-key value" in msg_template(a[1]):
+            sig = "C14:path-component-must-be-a-basic-key"
+        col.violation(sig, "the only fault is an unconvertible override"
+                      " value", inp, "DataConversionError",
+                      msg_template(a[1]))
 
 
 def _as_ref(t):
@@ -250,8 +253,8 @@ def _work(job):
 
 
 def run(tier, seed):
-    nschemas, ntexts, nlists = (640, 4, 8) if tier == "quick" \
-        else (6000, 6, 16)
+    nschemas, ntexts, nlists = (3200, 4, 8) if tier == "quick" \
+        else (24000, 6, 12)
     col = Collector()
     tags = {}
     jobs = [(seed, i, ntexts, nlists) for i in range(nschemas)]
